@@ -17,6 +17,7 @@ template<> struct tn<double> { static const char* n() { return "double"; } };
 template<> struct tn<int32_t> { static const char* n() { return "int32"; } };
 template<> struct tn<int64_t> { static const char* n() { return "int64"; } };
 template<> struct tn<std::complex<double>> { static const char* n() { return "cdouble"; } };
+template<> struct tn<std::complex<float>> { static const char* n() { return "cfloat"; } };
 // element helpers: complex elements get a distinct imaginary part; reals ignore it
 template<typename T> struct el { static T mk(size_t a, size_t) { return (T)a; } static double d(const T& x) { return (double)x; } static constexpr bool cplx = false; };
 template<typename U> struct el<std::complex<U>> { static std::complex<U> mk(size_t a, size_t b) { return std::complex<U>((U)a, (U)b); }
